@@ -116,7 +116,12 @@ impl FormMultipartData {
             }
 
             if bytes_read == total_bytes as i128 {
-                return Ok(part_list)
+                // nothing but a blank line may follow the closing boundary
+                if current_string_is_empty && part.headers.len() == 0 {
+                    return Ok(part_list)
+                }
+                let message = "No end boundary present in the multipart/form-data request body";
+                return Err(message.to_string());
             }
 
 
